@@ -151,6 +151,8 @@ pub fn policies(subs: &[f64]) -> Vec<ExtremeLatitudeMethod> {
 }
 
 pub fn explore(ctx: &Ctx) {
+    // call sequences from non-initial states (see history.rs)
+    crate::history::explore(ctx, "policy", &crate::history::alphabet_policy(), 2);
     let quick = ctx.tier == Tier::Quick;
     ctx.rule("every (site, date, method/intervals, policy) enumerated once; non-trivial = the policy's formula applied to at least one of Fajr/Isha (or, for nearest-latitude-all, all six) and was judged");
     ctx.assume("formulas evaluated from the conventional (policy None) Shurooq/Maghrib of the same site/date, whole seconds, tolerance 3 s");
